@@ -53,12 +53,16 @@ Protocol(o) == /\ o.statement_by_value
                     /\ t.status \in {"COMPLETED", "INFEASIBLE"}
                     /\ (t.status = "COMPLETED" => t.metrics_ok)
                     /\ t.params_kept
+\* a wrapper with a pointwise or order law reports the infeasibility of the point it evaluated: "completes ... or marks it infeasible"
+InfeasibleFaithful(o) == o.law \in {"pointwise", "order"} =>
+                           \A i \in DOMAIN o.trials : o.trials[i].inner_marked_infeasible => o.trials[i].status = "INFEASIBLE"
 Completed(o) == {i \in DOMAIN o.trials : o.trials[i].status = "COMPLETED" /\ ~o.trials[i].inner_infeasible}
 LawPointwise(o) == \A i \in Completed(o) : FBetween(o.trials[i].lo, o.trials[i].val, o.trials[i].hi)
 LawOrder(o) == \A i, j \in Completed(o) : FLt(o.trials[i].inner, o.trials[j].inner) => FLeq(o.trials[i].val, o.trials[j].val)
 Verdict(o) ==
   IF o.refused THEN "refused"
   ELSE IF ~Protocol(o) THEN "protocol"
+  ELSE IF ~InfeasibleFaithful(o) THEN "infeasible_reported_as_completed_" \o o.outer
   ELSE IF o.law = "pointwise" /\ ~LawPointwise(o) THEN "law_" \o o.outer
   ELSE IF o.law = "order" /\ ~LawOrder(o) THEN "law_" \o o.outer
   ELSE IF ~o.extra_ok THEN "law_" \o o.outer \o "_extra"
